@@ -56,11 +56,15 @@ fn get_pid_listeners<'a>() -> &'a Arc<DashMap<ActorId, ActorCell>> {
 
 pub(crate) fn register_pid(id: ActorId, actor: ActorCell) -> Result<(), super::ActorRegistryErr> {
     if id.is_local() {
+        #[cfg(slawlor_ractor_verif)]
+        crate::verif_hooks::point("pidreg.entry");
         match get_pid_registry().entry(id) {
             Occupied(_o) => Err(super::ActorRegistryErr::AlreadyRegistered(format!(
                 "PID {id} already alive"
             ))),
             Vacant(v) => {
+                #[cfg(slawlor_ractor_verif)]
+                crate::verif_hooks::point("pidreg.insert");
                 v.insert(actor.clone());
                 // notify lifecycle listeners
                 for listener in get_pid_listeners().iter() {
@@ -81,6 +85,8 @@ pub(crate) fn register_pid(id: ActorId, actor: ActorCell) -> Result<(), super::A
 
 pub(crate) fn unregister_pid(id: ActorId) {
     if id.is_local() {
+        #[cfg(slawlor_ractor_verif)]
+        crate::verif_hooks::point("pidreg.remove");
         if let Some((_, cell)) = get_pid_registry().remove(&id) {
             // notify lifecycle listeners
             for listener in get_pid_listeners().iter() {
@@ -112,6 +118,8 @@ pub fn get_all_pids() -> Vec<ActorCell> {
 /// Returns [Some(_)] if the actor exists locally, [None] otherwise
 pub fn where_is_pid(id: ActorId) -> Option<ActorCell> {
     if id.is_local() {
+        #[cfg(slawlor_ractor_verif)]
+        crate::verif_hooks::point("pidreg.get");
         get_pid_registry().get(&id).map(|v| v.value().clone())
     } else {
         None
